@@ -95,15 +95,17 @@ def run_property(prop, rules_fn, tier='quick', repo=None, overrides=None,
     try:
         ctx = Ctx(prop, tier, repo, overrides, c_overrides)
         rules_fn(ctx)
-        # vacuity guard
+        # vacuity guard (evaluated after the findings: a concrete violation
+        # takes precedence over a too-low instance count)
         counts = {}
         for i in ctx.instances:
             counts[i['rule']] = counts.get(i['rule'], 0) + 1
-        for rid, floor in ctx.rule_floor.items():
-            if counts.get(rid, 0) < floor:
-                raise AnalysisError(
-                    "rule %s matched %d instances, below the hand-confirmed floor %d "
-                    "(rule would pass vacuously)" % (rid, counts.get(rid, 0), floor))
+        if all(i['ok'] for i in ctx.instances):
+            for rid, floor in ctx.rule_floor.items():
+                if counts.get(rid, 0) < floor:
+                    raise AnalysisError(
+                        "rule %s matched %d instances, below the hand-confirmed floor %d "
+                        "(rule would pass vacuously)" % (rid, counts.get(rid, 0), floor))
     except AnalysisError as e:
         LAST_ERROR = str(e)
         say("ANALYSIS-ERROR property=%s %s" % (prop, e))
